@@ -244,13 +244,14 @@ def generate(rng, tier):
 
 # ----------------------------------------------------------------------------- printing
 def case_prios(c):
-    """priorities consumed by node creation, in order"""
-    ps = []
+    """priorities consumed by node creation, in order (an insert_at naming a missing treap creates nothing)"""
+    ps, L = [], []
     for op in c["ops"]:
         if op[0] == "F":
             ps.append(op[2])
-        elif op[0] == "I":
+        elif op[0] == "I" and op[1] < len(L):
             ps.append(op[4])
+        py_step(L, op)
     if c.get("native"):
         return lcg_prios(len(ps))
     return ps
@@ -366,14 +367,16 @@ def shrink(c):
     out = []
     ops = c["ops"]
     n = len(ops)
-    # drop a suffix, then single ops (later ones first: they cannot invalidate earlier indices)
+    # drop the second half / the last op, then chunks, then single ops (later ones first)
     if n > 1:
         out.append(dict(c, ops=ops[: n // 2]))
         out.append(dict(c, ops=ops[: n - 1]))
+    if n >= 8:
+        q = n // 4
+        for a in range(0, n, q):
+            out.append(dict(c, ops=ops[:a] + ops[a + q:]))
     for i in range(n - 1, -1, -1):
         out.append(dict(c, ops=ops[:i] + ops[i + 1:]))
-    if c.get("native"):
-        pass
     return out
 
 
